@@ -340,9 +340,10 @@ def placements(shape, quick, rng):
     else:
         for r in range(1, len(slots) + 1):
             combos = list(itertools.combinations(slots, r))
-            if len(combos) > 40:
+            cap = 12 if r <= 2 else 4
+            if len(combos) > cap:
                 rng.shuffle(combos)
-                combos = combos[:40]
+                combos = combos[:cap]
             out.extend([list(c) for c in combos])
     return out
 
@@ -375,10 +376,10 @@ def run_shard(sh):
                 continue
             rng = V.rng_for('c09', sh.seed, idx)
             for pl in placements(shape, quick, rng):
-                for rep in range(1 if quick else 3):
+                for rep in range(1 if quick else 2):
                     marks = make_marks(pl, rng)
                     recipe = to_recipe(shape, [0, 0], marks)
-                    for w in ([rng.choice(WIDTHS)] if quick else WIDTHS):
+                    for w in ([rng.choice(WIDTHS)] if quick else rng.sample(WIDTHS, 3)):
                         cfg = {'width': w, 'ribbon_width': rng.choice([w, 71, 5]), 'indent': rng.choice([4, 4, 1, 2, 8])}
                         if check_one(sh, recipe, cfg) is not SKIP:
                             sh.case((repr(recipe), sorted(cfg.items())))
